@@ -41,6 +41,8 @@ func (e *Engine) resetPath(prefix []int) {
 	e.started = map[*Solver]bool{}
 	e.facts = map[int]bool{}
 	e.decisions = nil
+	e.stubs = map[string]value{}
+	e.inStub = map[string]bool{}
 	e.choices = nil
 	e.pinModel = map[string]uint64{}
 	e.pinMemo = map[*Term]uint64{}
@@ -58,6 +60,8 @@ func (e *Engine) resetPath(prefix []int) {
 	e.assertsChecked = 0
 	e.clock = 0
 	e.timers = nil
+	e.timerFires = 0
+	e.slept = nil
 	e.chanSeq = 0
 }
 
@@ -89,7 +93,7 @@ func (e *Engine) runPath(h *ssa.Function, prefix []int) {
 				e.ends["panic: "+pe.msg]++
 				class := e.classifyEvent()
 				_, model := e.check(TrueT, true)
-				e.addFinding("panic", pe.msg, class, "", model)
+				e.addFinding("panic", pe.msg, class, "at "+e.lastPanicWhere, model)
 			case "deadlock":
 				e.ends["deadlock: "+pe.msg]++
 				class := e.classifyEvent()
@@ -97,7 +101,7 @@ func (e *Engine) runPath(h *ssa.Function, prefix []int) {
 				e.addFinding("deadlock", deadlockLabel(pe.msg), class, pe.msg, model)
 			}
 		}
-		if kind == "done" {
+		if kind == "done" || kind == "exit" {
 			e.finishDone()
 		}
 		for c := range e.covers {
